@@ -422,7 +422,7 @@ func cliTraffic(rng *rand.Rand, nOps int, faults bool) *cliScenario {
 		}
 		group := live[:n]
 		live = live[n:]
-		mod := []string{"", "", "err", "dup", "arr", "both", "pad", "arr pad"}[rng.Intn(8)]
+		mod := []string{"", "", "err", "dup", "arr", "both", "pad", "arr pad", "mixed"}[rng.Intn(9)]
 		if rng.Intn(5) == 0 {
 			continue // never answered
 		}
